@@ -112,7 +112,7 @@ Theorem rot_once_seq s0 rest sst seq' sst' :
 Proof.
   intros H E. rewrite rotate_complex_once_unfold, (index_of_app s0 rest H) in E.
   destruct (rot_struct (length s0) sst) as [s'|k]; [|discriminate]. cbn [rbind] in E.
-  injection E as <- _. rewrite skipn_exact, firstn_exact. reflexivity.
+  rewrite skipn_exact, firstn_exact in E. injection E as <- _. reflexivity.
 Qed.
 
 Theorem rot_once_seq_single seq sst seq' sst' :
